@@ -877,3 +877,137 @@ Section Traverse.
         destruct (IH c Hc r' (Hch c Hc) B) as [_ L]. apply L; assumption.
   Qed.
 End Traverse.
+
+Open Scope Q_scope.
+(* ---------- what the slab test means ---------- *)
+(* one axis: the coordinate o + t*d lies strictly inside the slab (bl, bh); for an exact zero direction
+   component (either sign: 1/d is an infinity) the origin lies in the closed slab [bl, bh] *)
+Definition axis_in (o d bl bh t : Q) : Prop :=
+  if Qeq_bool d 0 then bl <= o /\ o <= bh else bl < o + t * d /\ o + t * d < bh.
+
+Lemma div_lt_pos d x t : 0 < d -> (x / d < t <-> x < t * d) /\ (t < x / d <-> t * d < x).
+Proof.
+  intros Hd. assert (E : x == (x / d) * d) by (field; lra).
+  split.
+  - rewrite E at 2. symmetry. apply Qmult_lt_r. exact Hd.
+  - rewrite E at 2. symmetry. apply Qmult_lt_r. exact Hd.
+Qed.
+Lemma div_lt_neg d x t : d < 0 -> (x / d < t <-> t * d < x) /\ (t < x / d <-> x < t * d).
+Proof.
+  intros Hd. assert (E : x / d == (- x) / (- d)) by (field; lra).
+  assert (Hd' : 0 < - d) by lra. destruct (div_lt_pos (- d) (- x) t Hd') as [A B].
+  split.
+  - rewrite E, A. split; intros; nra.
+  - rewrite E, B. split; intros; nra.
+Qed.
+
+Definition in_range (r : Q * Q) (t : Q) : Prop := fst r < t /\ t < snd r.
+
+Lemma qeqb_false d : Qeq_bool d 0 = false <-> ~ d == 0.
+Proof.
+  split.
+  - intros H E. apply Qeq_bool_iff in E. congruence.
+  - intros H. destruct (Qeq_bool d 0) eqn:E; [|reflexivity]. apply Qeq_bool_iff in E. contradiction.
+Qed.
+
+(* one stage of the slab test: the range that is left is exactly the part of the range where the
+   axis condition holds; "miss" means that part is empty *)
+Lemma slab1_geo o d bl bh r : bl <= bh ->
+  match slab1 o d bl bh r with
+  | Some r' => fst r' < snd r' /\ forall t, in_range r' t <-> in_range r t /\ axis_in o d bl bh t
+  | None => forall t, ~ (in_range r t /\ axis_in o d bl bh t)
+  end.
+Proof.
+  intros W. destruct (Qeq_dec d 0) as [Hd|Hd].
+  - destruct r as [lo hi]. unfold slab1, axis_in. pose proof Hd as Hd'. apply Qeq_alt in Hd'. rewrite Hd'.
+    apply Qeq_bool_iff in Hd. rewrite Hd.
+    destruct (Qle_bool bl o && Qle_bool o bh)%bool eqn:E1.
+    + apply andb_true_iff in E1. destruct E1 as [E1 E2].
+      destruct (Qle_bool hi lo) eqn:E3; qb.
+      * intros t [[A B] _]. cbn in A, B. lra.
+      * split; [exact E3|]. intros t. tauto.
+    + intros t [_ [A B]]. apply andb_false_iff in E1. destruct E1 as [E1|E1]; qb; lra.
+  - rewrite slab1_nz_eq by exact Hd. unfold slab1_nz, axis_in. cbv zeta.
+    rewrite (proj2 (qeqb_false d) Hd).
+    assert (M : forall t,
+      (qmn ((bl - o) / d) ((bh - o) / d) < t /\ t < qmx ((bh - o) / d) ((bl - o) / d)) <->
+      (bl < o + t * d /\ o + t * d < bh)).
+    { intros t.
+      destruct (qmn_spec ((bl - o) / d) ((bh - o) / d)) as (A1 & A2 & A3).
+      destruct (qmx_spec ((bh - o) / d) ((bl - o) / d)) as (A4 & A5 & A6).
+      destruct (Q_dec d 0) as [[Hn|Hp]|He]; [| |contradiction].
+      - destruct (div_lt_neg d (bl - o) t Hn) as [L1 L2]. destruct (div_lt_neg d (bh - o) t Hn) as [H1 H2].
+        assert ((bh - o) / d <= (bl - o) / d) by (apply Qdiv_le_neg; [assumption|lra]).
+        generalize dependent ((bl - o) / d). generalize dependent ((bh - o) / d). intros.
+        destruct A3, A6; split; intros [X Y]; split; lra.
+      - destruct (div_lt_pos d (bl - o) t Hp) as [L1 L2]. destruct (div_lt_pos d (bh - o) t Hp) as [H1 H2].
+        assert ((bl - o) / d <= (bh - o) / d) by (apply Qdiv_le_pos; [assumption|lra]).
+        generalize dependent ((bl - o) / d). generalize dependent ((bh - o) / d). intros.
+        destruct A3, A6; split; intros [X Y]; split; lra. }
+    generalize dependent (qmn ((bl - o) / d) ((bh - o) / d)). intros t0.
+    generalize dependent (qmx ((bh - o) / d) ((bl - o) / d)). intros t1 M.
+    destruct (qmx_spec (fst r) t0) as (C1 & C2 & C3). destruct (qmn_spec (snd r) t1) as (C4 & C5 & C6).
+    generalize dependent (qmx (fst r) t0). intros lo'. generalize dependent (qmn (snd r) t1). intros hi'. intros.
+    assert (N : forall t, (lo' < t /\ t < hi') <-> (in_range r t /\ t0 < t /\ t < t1)).
+    { intros t. unfold in_range. destruct C3, C6; split; intros; repeat split; lra. }
+    destruct (Qle_bool hi' lo') eqn:E; qb.
+    + intros t [R A]. apply M in A. assert (lo' < t /\ t < hi') by (apply N; tauto). lra.
+    + split; [exact E|]. intros t. unfold in_range at 1. cbn [fst snd]. rewrite N, M. tauto.
+Qed.
+
+(* "the ray crosses the box within the range": some parameter t strictly inside the range puts the
+   point origin + t*direction inside the kEpsilon-inflated box (strictly, on every axis with a non-zero
+   direction component; an axis with a zero component only asks the origin to be in the closed slab) *)
+Definition ray_crosses (b : box) (ry : ray) (r : Q * Q) : Prop :=
+  let '(o, (dx, dy, dz)) := ry in
+  exists t, in_range r t /\
+    axis_in (q4 (px o)) dx (q4 (px (bmin b)) - keps) (q4 (px (bmax b)) + keps) t /\
+    axis_in (q4 (py o)) dy (q4 (py (bmin b)) - keps) (q4 (py (bmax b)) + keps) t /\
+    axis_in (q4 (pz o)) dz (q4 (pz (bmin b)) - keps) (q4 (pz (bmax b)) + keps) t.
+
+Lemma range_midpoint (r : Q * Q) : fst r < snd r -> in_range r ((fst r + snd r) / 2).
+Proof.
+  intros H. unfold in_range. assert (E : (fst r + snd r) / 2 == (fst r + snd r) * (1 # 2)) by field.
+  rewrite E. split; lra.
+Qed.
+
+Theorem slab_geo b ry r : wf_box b -> (slab b ry r = true <-> ray_crosses b ry r).
+Proof.
+  intros W. unfold slab, ray_crosses. destruct ry as [o [[dx dy] dz]].
+  unfold wf_box in W. destruct W as (W1 & W2 & W3). apply q4_mono in W1, W2, W3.
+  assert (K : 0 <= keps) by (unfold keps, Qle; cbn; lia).
+  pose proof (slab1_geo (q4 (px o)) dx (q4 (px (bmin b)) - keps) (q4 (px (bmax b)) + keps) r ltac:(lra)) as G1.
+  destruct (slab1 (q4 (px o)) dx _ _ r) as [r1|]; cbn [obind].
+  2:{ split; [discriminate|]. intros (t & R & A1 & _). exfalso. apply (G1 t). tauto. }
+  destruct G1 as [_ G1].
+  pose proof (slab1_geo (q4 (py o)) dy (q4 (py (bmin b)) - keps) (q4 (py (bmax b)) + keps) r1 ltac:(lra)) as G2.
+  destruct (slab1 (q4 (py o)) dy _ _ r1) as [r2|]; cbn [obind].
+  2:{ split; [discriminate|]. intros (t & R & A1 & A2 & _). exfalso. apply (G2 t). rewrite G1. tauto. }
+  destruct G2 as [_ G2].
+  pose proof (slab1_geo (q4 (pz o)) dz (q4 (pz (bmin b)) - keps) (q4 (pz (bmax b)) + keps) r2 ltac:(lra)) as G3.
+  destruct (slab1 (q4 (pz o)) dz _ _ r2) as [r3|]; cbn [obind].
+  2:{ split; [discriminate|]. intros (t & R & A1 & A2 & A3). exfalso. apply (G3 t). rewrite G2, G1. tauto. }
+  destruct G3 as [N3 G3]. split; [intros _|reflexivity].
+  exists ((fst r3 + snd r3) / 2). pose proof (range_midpoint r3 N3) as Mid.
+  apply G3 in Mid. rewrite G2, G1 in Mid. tauto.
+Qed.
+Open Scope Z_scope.
+
+(* ElementsIntersectingRay against the geometric specification: exactly the elements whose (inflated)
+   box the ray crosses within the range, each once *)
+Theorem ray_hits_geo depth boxes t ry r :
+  Forall wf_box boxes -> new_octree depth boxes = Some t ->
+  NoDup (ray_hits t ry r) /\
+  forall i, In i (ray_hits t ry r) <->
+            (i < length boxes)%nat /\ ray_crosses (nth i boxes zero_pt_box) ry r.
+Proof.
+  intros W B. destruct (ray_eq_brute_thm depth boxes t ry r W B) as [P _].
+  assert (ND : NoDup (brute (fun b => slab b ry r) boxes)) by (apply NoDup_filter, seq_NoDup).
+  split; [eapply Permutation_NoDup; [apply Permutation_sym, P | exact ND]|].
+  intros i. split.
+  - intros H. eapply Permutation_in in H; [|exact P]. unfold brute in H. apply filter_In in H.
+    destruct H as [H1 H2]. apply in_seq in H1. split; [lia|].
+    apply slab_geo; [|exact H2]. rewrite Forall_forall in W. apply W, nth_In. lia.
+  - intros [H1 H2]. eapply Permutation_in; [apply Permutation_sym, P|]. apply filter_In. split; [apply in_seq; lia|].
+    apply slab_geo; [|exact H2]. rewrite Forall_forall in W. apply W, nth_In. lia.
+Qed.
